@@ -252,6 +252,257 @@ proof fn lemma_ap_overlay(data: Seq<u8>, addr: u32, frame: Seq<u8>)
     assert(p ^ (p ^ addr) == addr) by(bit_vector);
 }
 
+// ---------------- error detection (C02: 1 bit, 2 bits, bursts up to 24 bits) ---------------------------
+// A frame of n <= 16 bytes is also the n*8-bit number `value(s)`; an error pattern is a number E that is
+// xor-ed onto it.  All lemmas are over the specification only (plus the proved contract of modes_checksum).
+pub open spec fn value(s: Seq<u8>) -> u128 decreases s.len() {
+    if s.len() == 0 { 0 } else { (value(s.drop_last()) << 8) | (s.last() as u128) }
+}
+/// feed the low n bits of the wide number v, most significant first
+pub open spec fn feedw(r: u32, v: u128, n: nat) -> u32 decreases n {
+    if n == 0 { r } else { sh(feedw(r, v >> 1, (n - 1) as nat), (v & 1) as u32) }
+}
+pub open spec fn xor_seq(a: Seq<u8>, b: Seq<u8>) -> Seq<u8> { Seq::new(a.len(), |i: int| a[i] ^ b[i]) }
+/// x^d mod G
+pub open spec fn powx(d: nat) -> u32 decreases d { if d == 0 { 1 } else { sh(powx((d - 1) as nat), 0) } }
+
+proof fn lemma_feedw_range(r: u32, v: u128, n: nat)
+    requires r < 0x100_0000
+    ensures feedw(r, v, n) < 0x100_0000
+    decreases n
+{
+    if n > 0 {
+        lemma_feedw_range(r, v >> 1, (n - 1) as nat);
+        assert(((v & 1) as u32) <= 1) by(bit_vector);
+        lemma_sh_lin(feedw(r, v >> 1, (n - 1) as nat), 0, (v & 1) as u32, 0);
+    }
+}
+/// feed only looks at the low k bits of its value
+proof fn lemma_feed_mask(r: u32, a: u32, b: u32, k: nat)
+    requires k <= 31, a & (((1u32 << (k as u32)) - 1) as u32) == b & (((1u32 << (k as u32)) - 1) as u32)
+    ensures feed(r, a, k) == feed(r, b, k)
+    decreases k
+{
+    if k > 0 {
+        let kk = k as u32;
+        assert((a >> 1) & (((1u32 << ((kk - 1) as u32)) - 1) as u32) == (b >> 1) & (((1u32 << ((kk - 1) as u32)) - 1) as u32) && a & 1 == b & 1) by(bit_vector)
+            requires 1 <= kk <= 31, a & (((1u32 << kk) - 1) as u32) == b & (((1u32 << kk) - 1) as u32);
+        lemma_feed_mask(r, a >> 1, b >> 1, (k - 1) as nat);
+    }
+}
+/// feedw(r, w, n+k) == feed(feedw(r, w >> k, n), low byte of w, k)   for k <= 8
+proof fn lemma_feedw_splitk(r: u32, w: u128, n: nat, k: nat)
+    requires k <= 8
+    ensures feedw(r, w, n + k) == feed(feedw(r, w >> (k as u128), n), (w & 0xff) as u32, k)
+    decreases k
+{
+    if k == 0 {
+        assert(w >> 0u128 == w) by(bit_vector);
+    } else {
+        let kk = k as u128;
+        lemma_feedw_splitk(r, w >> 1, n, (k - 1) as nat);
+        assert((w >> 1) >> ((kk - 1) as u128) == w >> kk) by(bit_vector) requires 1 <= kk <= 8;
+        let x = feedw(r, w >> kk, n);
+        let a = ((w & 0xff) as u32) >> 1;
+        let b = ((w >> 1) & 0xff) as u32;
+        let k1 = (k - 1) as u32;
+        assert(a & (((1u32 << k1) - 1) as u32) == b & (((1u32 << k1) - 1) as u32)) by(bit_vector)
+            requires k1 <= 7, a == ((w & 0xff) as u32) >> 1, b == ((w >> 1) & 0xff) as u32;
+        lemma_feed_mask(x, a, b, (k - 1) as nat);
+        assert(((w & 0xff) as u32) & 1 == ((w & 1) as u32)) by(bit_vector);
+        assert((n + k - 1) as nat == n + (k - 1) as nat);
+    }
+}
+/// feeding a byte = feeding its 8 bits as the low end of a wide number
+proof fn lemma_feedw_byte(r: u32, v: u128, n: nat, b: u8)
+    requires v < 0x0100_0000_0000_0000_0000_0000_0000_0000u128
+    ensures feedw(r, (v << 8) | (b as u128), n + 8) == feed(feedw(r, v, n), b as u32, 8)
+{
+    let w = (v << 8) | (b as u128);
+    assert(w >> 8u128 == v && (w & 0xff) as u32 == b as u32) by(bit_vector)
+        requires w == (v << 8) | (b as u128), v < 0x0100_0000_0000_0000_0000_0000_0000_0000u128;
+    lemma_feedw_splitk(r, w, n, 8);
+}
+/// the remainder of a frame of at most 15 bytes is the remainder of its number
+proof fn lemma_rem_is_feedw(s: Seq<u8>)
+    requires s.len() <= 15
+    ensures polyrem(s) == feedw(0, value(s), 8 * s.len()), value(s) < (1u128 << ((8 * s.len()) as u128))
+    decreases s.len()
+{
+    if s.len() == 0 {
+        assert(1u128 << 0u128 == 1) by(bit_vector);
+    } else {
+        let t = s.drop_last();
+        lemma_rem_is_feedw(t);
+        let v = value(t); let b = s.last(); let m = (8 * t.len()) as u128;
+        assert(v < 0x0100_0000_0000_0000_0000_0000_0000_0000u128 && ((v << 8) | (b as u128)) < (1u128 << ((m + 8) as u128))) by(bit_vector)
+            requires v < (1u128 << m), m <= 112;
+        lemma_feedw_byte(0, v, 8 * t.len(), b);
+        assert(8 * s.len() == 8 * t.len() + 8);
+    }
+}
+
+/// remainder is linear over GF(2): rem(a xor b) = rem(a) xor rem(b) for frames of equal length
+proof fn lemma_rem_linear(a: Seq<u8>, b: Seq<u8>)
+    requires a.len() == b.len()
+    ensures polyrem(xor_seq(a, b)) == polyrem(a) ^ polyrem(b)
+    decreases a.len()
+{
+    if a.len() == 0 {
+        assert(0u32 ^ 0 == 0) by(bit_vector);
+    } else {
+        let (a1, b1) = (a.drop_last(), b.drop_last());
+        lemma_rem_linear(a1, b1);
+        assert(xor_seq(a, b).drop_last() =~= xor_seq(a1, b1));
+        lemma_rem_range(a1); lemma_rem_range(b1);
+        let (p, q) = (a.last(), b.last());
+        assert(xor_seq(a, b).last() == p ^ q);
+        assert(((p ^ q) as u32) == (p as u32) ^ (q as u32)) by(bit_vector);
+        lemma_feed_lin(polyrem(a1), polyrem(b1), p as u32, q as u32, 8);
+    }
+}
+/// multiplying by x keeps a non-zero remainder non-zero (G has constant term 1)
+proof fn lemma_sh_nonzero(r: u32)
+    requires 0 < r < 0x100_0000
+    ensures sh(r, 0) != 0, sh(r, 0) < 0x100_0000, sh(r, 1) == sh(r, 0) ^ 1
+{
+    assert({ let s = (r << 1) | 0; let t = (r << 1) | 1;
+        (if s & 0x100_0000 != 0 { s ^ 0x1FF_F409 } else { s }) != 0 && (if s & 0x100_0000 != 0 { s ^ 0x1FF_F409 } else { s }) < 0x100_0000
+        && (if t & 0x100_0000 != 0 { t ^ 0x1FF_F409 } else { t }) == (if s & 0x100_0000 != 0 { s ^ 0x1FF_F409 } else { s }) ^ 1 })
+        by(bit_vector) requires 0 < r < 0x100_0000;
+}
+/// a number below 2^24 is its own remainder however many leading zero bits are fed first
+proof fn lemma_feedw_small(v: u128, n: nat)
+    requires v < 0x100_0000, n <= 128, n >= 24 || v < (1u128 << (n as u128))
+    ensures feedw(0, v, n) == v as u32
+    decreases n
+{
+    if n > 0 {
+        let m = n as u128;
+        assert((v >> 1) < 0x100_0000 && (m - 1 >= 24 || (v >> 1) < (1u128 << ((m - 1) as u128)))) by(bit_vector)
+            requires v < 0x100_0000, 1 <= m <= 128, m >= 24 || v < (1u128 << m);
+        lemma_feedw_small(v >> 1, (n - 1) as nat);
+        let r = (v >> 1) as u32; let bit = (v & 1) as u32;
+        assert({ let s = (r << 1) | bit; s == v as u32 && s & 0x100_0000 == 0 }) by(bit_vector)
+            requires v < 0x100_0000, r == (v >> 1) as u32, bit == (v & 1) as u32;
+    } else {
+        assert(v == 0) by(bit_vector) requires v < (1u128 << 0u128);
+    }
+}
+/// low t bits zero: the remainder is x^t times the remainder of the rest, and stays non-zero
+proof fn lemma_feedw_low_zeros(v: u128, n: nat, t: nat)
+    requires t <= n, n <= 128, (v >> (t as u128)) << (t as u128) == v, feedw(0, v >> (t as u128), (n - t) as nat) != 0
+    ensures feedw(0, v, n) != 0
+    decreases t
+{
+    if t == 0 {
+        assert(v >> 0u128 == v) by(bit_vector);
+    } else {
+        let tt = t as u128;
+        let w = v >> 1;
+        assert((w >> ((tt - 1) as u128)) << ((tt - 1) as u128) == w && w >> ((tt - 1) as u128) == v >> tt && v & 1 == 0) by(bit_vector)
+            requires 1 <= tt <= 128, (v >> tt) << tt == v, w == v >> 1;
+        lemma_feedw_low_zeros(w, (n - 1) as nat, (t - 1) as nat);
+        lemma_feedw_range(0, w, (n - 1) as nat);
+        lemma_sh_nonzero(feedw(0, w, (n - 1) as nat));
+    }
+}
+/// x^d mod G as a fed number: feeding 1 followed by d zero bits
+proof fn lemma_powx_is_feedw(d: nat, n: nat)
+    requires d < n, n <= 128
+    ensures feedw(0, 1u128 << (d as u128), n) == powx(d), 0 < powx(d) < 0x100_0000
+    decreases d
+{
+    let dd = d as u128;
+    if d == 0 {
+        assert(1u128 << 0u128 == 1) by(bit_vector);
+        let m = n as u128;
+        assert(m >= 24 || 1u128 < (1u128 << m)) by(bit_vector) requires 1 <= m <= 128;
+        lemma_feedw_small(1, n);
+    } else {
+        assert((1u128 << dd) >> 1 == 1u128 << ((dd - 1) as u128) && (1u128 << dd) & 1 == 0) by(bit_vector) requires 1 <= dd < 128;
+        lemma_powx_is_feedw((d - 1) as nat, (n - 1) as nat);
+        lemma_sh_nonzero(powx((d - 1) as nat));
+    }
+}
+//@ repeat d 1 112
+//@: proof fn powx_not_one_{d}() ensures powx({d}) != 1 { assert(powx({d}) != 1) by(compute_only); }
+proof fn lemma_powx_not_one(d: nat)
+    requires 1 <= d <= 111
+    ensures powx(d) != 1
+{
+//@ repeat d 1 112
+//@: if d == {d} { powx_not_one_{d}(); }
+}
+
+/// BURST: an error pattern whose set bits span at most 24 positions has a non-zero remainder
+proof fn lemma_burst_nonzero(e: u128, n: nat, t: nat)
+    requires n <= 128, t + 24 <= n, e != 0, (e >> (t as u128)) < 0x100_0000, (e >> (t as u128)) << (t as u128) == e
+    ensures feedw(0, e, n) != 0
+{
+    let b = e >> (t as u128);
+    let tt = t as u128;
+    assert(b != 0) by(bit_vector) requires e != 0, (e >> tt) << tt == e, b == e >> tt;
+    lemma_feedw_small(b, (n - t) as nat);
+    assert(b as u32 != 0) by(bit_vector) requires b != 0, b < 0x100_0000;
+    lemma_feedw_low_zeros(e, n, t);
+}
+/// TWO BITS: x^i + x^j (0 <= j < i < n <= 112) has a non-zero remainder
+proof fn lemma_two_bits_nonzero(i: nat, j: nat, n: nat)
+    requires j < i, i < n, n <= 112
+    ensures feedw(0, (1u128 << (i as u128)) | (1u128 << (j as u128)), n) != 0
+{
+    let (ii, jj) = (i as u128, j as u128);
+    let d = (i - j) as nat; let dd = d as u128;
+    let e = (1u128 << ii) | (1u128 << jj);
+    let c = (1u128 << dd) | 1;                       // x^d + 1
+    assert(e >> jj == c && (e >> jj) << jj == e && c >> 1 == 1u128 << ((dd - 1) as u128) && c & 1 == 1) by(bit_vector)
+        requires jj < ii, ii < 112, dd == ii - jj, e == (1u128 << ii) | (1u128 << jj), c == (1u128 << dd) | 1;
+    // remainder of x^d + 1 fed with n - j bits: sh(powx(d-1), 1) = powx(d) ^ 1 != 0
+    lemma_powx_is_feedw((d - 1) as nat, (n - j - 1) as nat);
+    lemma_sh_nonzero(powx((d - 1) as nat));
+    lemma_powx_not_one(d);
+    let p = powx(d);
+    assert(p ^ 1 != 0) by(bit_vector) requires p != 1;
+    assert(feedw(0, c, (n - j) as nat) == sh(feedw(0, c >> 1, (n - j - 1) as nat), (c & 1) as u32));
+    lemma_feedw_low_zeros(e, n, j);
+}
+/// C02 error detection: a valid 14-byte frame (remainder 0) to which an error pattern is xor-ed is no longer
+/// valid when the pattern is a single bit, two bits anywhere, or any burst whose bits span at most 24 positions;
+/// with the contract of modes_checksum (checksum == polyrem) such a frame is never accepted as DF17.
+proof fn lemma_error_makes_invalid(f: Seq<u8>, e: Seq<u8>)
+    requires f.len() == 14, e.len() == 14, polyrem(f) == 0, feedw(0, value(e), 112) != 0
+    ensures polyrem(xor_seq(f, e)) != 0
+{
+    lemma_rem_linear(f, e);
+    lemma_rem_is_feedw(e);
+    let re = polyrem(e);
+    assert(0u32 ^ re == re) by(bit_vector);
+}
+proof fn theorem_single_bit_error_detected(f: Seq<u8>, e: Seq<u8>, i: nat)
+    requires f.len() == 14, e.len() == 14, polyrem(f) == 0, i < 112, value(e) == 1u128 << (i as u128)
+    ensures polyrem(xor_seq(f, e)) != 0
+{
+    lemma_powx_is_feedw(i, 112);
+    lemma_error_makes_invalid(f, e);
+}
+proof fn theorem_double_bit_error_detected(f: Seq<u8>, e: Seq<u8>, i: nat, j: nat)
+    requires f.len() == 14, e.len() == 14, polyrem(f) == 0, j < i, i < 112, value(e) == (1u128 << (i as u128)) | (1u128 << (j as u128))
+    ensures polyrem(xor_seq(f, e)) != 0
+{
+    lemma_two_bits_nonzero(i, j, 112);
+    lemma_error_makes_invalid(f, e);
+}
+/// burst: the set bits of the error lie in positions t .. t+23 for some t
+proof fn theorem_burst_error_detected(f: Seq<u8>, e: Seq<u8>, t: nat)
+    requires f.len() == 14, e.len() == 14, polyrem(f) == 0, t + 24 <= 112, value(e) != 0,
+        (value(e) >> (t as u128)) < 0x100_0000, (value(e) >> (t as u128)) << (t as u128) == value(e)
+    ensures polyrem(xor_seq(f, e)) != 0
+{
+    lemma_burst_nonzero(value(e), 112, t);
+    lemma_error_makes_invalid(f, e);
+}
+
 // vacuity witnesses
 fn pre_sat_checksum(m: &[u8]) requires m@.len() == 14 { let _r = modes_checksum(m, 112); }
 
